@@ -53,8 +53,10 @@ CLAIMED = {
          "with byte-wise synthesised fonts/patches and a deterministic fault-injecting decoder, both through the "
          "low-level apply_* API in the model's order and through PatchGroup with the caller's status map.",
     note="Trusted: TLC, the harness's font/patch synthesiser and its hand-written projection (loca/glyf/gvar "
-         "parsing). glyf/loca + gvar with short offsets, 4 glyphs, blobs <= 4 bytes, groups <= 3 patches; CFF and "
-         "offset widening are not covered yet.",
+         "parsing). glyf/loca + gvar with short offsets, 4 glyphs, blobs <= 4 bytes, groups <= 3 patches in the state "
+         "graph; CFF / CFF2 charstrings (INDEX offset-size thresholds) and the 131070-byte reach of short glyf / gvar offsets "
+         "(widening) through the threshold families of IFTCff.tla / IFTSizesMC.tla; table keyed patches also through "
+         "PatchGroup with the caller's bookkeeping.",
     technique="TLA+ patch-application state machine checked by TLC (invariants + action properties); state-graph replay with fault injection",
     design="4/C18"),
  "C05": dict(
@@ -66,7 +68,7 @@ CLAIMED = {
          "through the public FontWrite/dump_table API and the raw observations (object copies found by walking the "
          "output, decoded offsets) are judged by GraphPackTrace!SoundObserved in TLC.",
     note="Trusted: TLC, the harness's byte walker. <= 4 nodes; mock objects only here (lookup splitting and extension "
-         "promotion are reached through C16's GPOS tables once built); a reported packing failure is accepted.",
+         "promotion are reached through C16's GPOS tables and C07's GSUB value); a reported packing failure is accepted.",
     technique="TLA+ layout-soundness predicate + permitted-transformation model checked by TLC; exhaustive graph enumeration replayed on dump_table; trace validation of observed layouts",
     design="4/C05"),
  "C07": dict(
@@ -122,13 +124,14 @@ CLAIMED = {
     category="model_checking",
     text="HintInstance.tla models the in-place reconfiguration of the hinting instance (provenance of every retained "
          "buffer; setup / fpgm / prep steps; failure leaves a disabled instance) and TLC checks history independence "
-         "(Fresh), FailedIsNone and DrawPure over all short histories of a 12-configuration catalogue; each history is "
+         "(Fresh), FailedIsNone and DrawPure over all short histories of a 27-configuration catalogue; each history is "
          "replayed on one reused HintingInstance and every glyph drawn through it is compared with a fresh instance - "
          "two synthetic fonts make storage, CVT, twilight, FDEF and IDEF state visible in point coordinates; draws "
-         "with caller memory at all misalignments, all-zero locations, pedantic mode and 8 threads sharing an instance "
+         "with caller memory (pattern-filled, never cleared, both path styles) at all misalignments, all-zero locations "
+         "(hinted and unhinted), and 8 threads sharing an instance - also instances nobody has drawn with yet, behind a barrier - "
          "are compared with the plain draw; every path is checked for the (Move Seg* Close)* grammar.",
     note="Trusted: TLC, the fresh-instance oracle (same build). Histories <= 3; the auto-hinter's lazily filled "
-         "metrics cache is exercised by the thread variant but not yet modelled as its own TLA+ module.",
+         "metrics cache is exercised by the thread variants (a race can only be missed, not invented) and has no TLA+ module of its own.",
     technique="TLA+ life-cycle model checked by TLC; TLC-generated reconfigure histories replayed on a reused instance; trace validation of draw equality",
     design="4/C12"),
  "C11": dict(
@@ -140,7 +143,7 @@ CLAIMED = {
          "VariationStoreBuilder in both modes, read back raw and judged by IvsTrace, including compute_delta at probe "
          "locations; fvar normalisation and avar maps are validated as relations on recorded samples.",
     note="Trusted: TLC, read-fonts' raw getters for the store's fields. Coordinates restricted to multiples of 0.25; "
-         "HVAR metrics through skrifa not covered yet.",
+         "HVAR metrics through skrifa's GlyphMetrics on synthetic fonts (index maps, hmtx fall-backs) in font units only.",
     technique="TLA+ builder contract + reader semantics; TLC-enumerated histories replayed on the builder; trace validation of compiled stores and numeric relations",
     design="4/C11"),
  "C10": dict(
